@@ -17,7 +17,7 @@ CHECKS = {
    note="trusted: vinstr/vrt/vnet; default schedule only"),
  "C14": dict(level="exploration", design="4/C14",
    technique="bounded-exhaustive enumeration of configurations and plugin capability lists; first message of each real connection parsed by an independent strict OPEN parser",
-   text="Product of boundary local AS / hold time / router id values with all capability lists up to depth 2 (quick) / 3 (thorough) over a code x length alphabet, totals around the 255-octet limits and unrepresentable lists, both connection directions; the OPEN the real FSM writes is parsed strictly (all four nested lengths) and compared field by field with the configuration. Also the OPEN of a second connection (after another negotiated hold time, with the plugin handing out the same list again or editing its values in place) and router ids in IPv4-mapped form.",
+   text="Product of boundary local AS / hold time / router id values with all capability lists up to depth 2 (quick) / 3 (thorough) over a code x length alphabet, totals around the 255-octet limits and unrepresentable lists, both connection directions; the OPEN the real FSM writes is parsed strictly (all four nested lengths) and compared field by field with the configuration. Also the OPEN of a second connection (after another negotiated hold time, with the plugin handing out the same list again or editing its values in place) and router ids in IPv4-mapped form. The judged OPEN is also that of a second connection after a first one that ended in OpenSent or OpenConfirm, by the close of the remote or by its NOTIFICATION (2,4) (then after the hold-down).",
    note="trusted: vinstr/vrt/vnet, wire.ParseOpenStrict; default schedule only"),
  "C01": dict(level="model_checking", design="4/C01",
    technique="stateless model checking of the implementation: delay-bounded exhaustive schedule exploration with happens-before caching, callback-history automaton on every execution",
@@ -49,11 +49,11 @@ CHECKS = {
    note="trusted: vinstr/vrt/vnet; segmentation model A3"),
  "C04": dict(level="model_checking", design="4/C04",
    technique="stateless model checking of the implementation: delay-bounded exhaustive schedule exploration of concurrent WriteUpdate callers vs keepalive timer vs teardown, strict frame parser on all written bytes, race detector",
-   text="WriteUpdate from inside OnEstablished, from inside the handler and from 1-3 free goroutines, timed to coincide with the keepalive timer and with FIN / received NOTIFICATION / handler NOTIFICATION / Close, followed by reconnection and reuse of the old writers; all schedules within the delay bound on the real code; every byte corebgp wrote is parsed strictly per connection and matched as a multiset and per-goroutine order against the calls' return values. Also a stalled reader on a bounded-window network, a plugin whose OnClose joins its writers, two peers with a writer each, writes from inside the handler after an RST, and a header fault arriving while writers are active. Scenario family stalled-writer: on a bounded-window network the remote stops reading until the writers block inside WriteUpdate, then ends the session (NOTIFICATION, FIN or RST); one second later the connection is closed, OnClose has returned and every blocked call has been released. A trailing fragment is not counted against corebgp where the peer itself cut the connection under a message in flight (next write of the same goroutine refused with EPIPE, nothing written after); net.Buffers on a virtual connection is one vectored write, as on a TCP connection.",
+   text="WriteUpdate from inside OnEstablished, from inside the handler and from 1-3 free goroutines, timed to coincide with the keepalive timer and with FIN / received NOTIFICATION / handler NOTIFICATION / Close, followed by reconnection and reuse of the old writers; all schedules within the delay bound on the real code; every byte corebgp wrote is parsed strictly per connection and matched as a multiset and per-goroutine order against the calls' return values. Also a stalled reader on a bounded-window network, a plugin whose OnClose joins its writers, two peers with a writer each, writes from inside the handler after an RST, and a header fault arriving while writers are active. Scenario family stalled-writer: on a bounded-window network the remote stops reading until the writers block inside WriteUpdate, then ends the session (NOTIFICATION, FIN or RST); one second later the connection is closed, OnClose has returned and every blocked call has been released. A trailing fragment is not counted against corebgp where the peer itself cut the connection under a message in flight (next write of the same goroutine refused with EPIPE, nothing written after); net.Buffers on a virtual connection is one vectored write, as on a TCP connection. The free-writer scenarios are also run on connections that reach corebgp as a plain net.Conn (not *net.TCPConn; net.Buffers degrades to one Write per buffer).",
    note="trusted: vinstr/vrt/vnet; Write atomicity assumption A3"),
  "C06": dict(level="exploration", design="4/C06",
    technique="bounded-exhaustive enumeration of (local hold, remote hold, traffic pattern, write pattern, timer semantics) in virtual time on the real FSM, plus delay-bounded schedule exploration around expiry; thorough tier: 48 cases are also run in real time on the Go runtime over loopback TCP and the timelines compared with the virtual ones (conformance of the virtual clock)",
-   text="The 8x8 hold-time grid x 7 remote traffic patterns (incl. KEEPALIVE 1 ns before and exactly at expiry) x 3 local write patterns x both Go timer-channel semantics, each run for 3 hold times of virtual time (10x65535 s for hold 0) with time-stamped wire observations: negotiated value, no early expiry, expiry with (4,0)+EOF after silence, keepalive/UPDATE cadence <= hold/3 + 1 s, hold 0 never expires and sends no periodic KEEPALIVEs. Also second sessions after a session with another hold time, nil handlers, a slow handler around expiry, and one WriteUpdate at every step of the FSM's keepalive path.",
+   text="The 8x8 hold-time grid x 7 remote traffic patterns (incl. KEEPALIVE 1 ns before and exactly at expiry) x 3 local write patterns x both Go timer-channel semantics, each run for 3 hold times of virtual time (10x65535 s for hold 0) with time-stamped wire observations: negotiated value, no early expiry, expiry with (4,0)+EOF after silence, keepalive/UPDATE cadence <= hold/3 + 1 s, hold 0 never expires and sends no periodic KEEPALIVEs. Also second sessions after a session with another hold time, nil handlers, a slow handler around expiry, and one WriteUpdate at every step of the FSM's keepalive path. Scenario refused-write: WriteUpdate with bodies over 4077 octets once a second; while the session is up the connection is never silent for longer than hold/3 + 1 s (raw writes).",
    note="trusted: vinstr/vrt virtual clock; zero-time computation A4"),
  "C16": dict(level="exploration", design="4/C16",
    technique="bounded-exhaustive input enumeration of UpdateDecoder.Decode vs an independent reference partitioner",
@@ -69,11 +69,11 @@ CHECKS = {
    note="trusted: vinstr/vrt virtual clock, vnet dial scripts"),
  "C12": dict(level="fault_enumeration", design="4/C12",
    technique="exhaustive enumeration of error / non-damping event / elapsed-time histories on the real code in virtual time vs a reference damping automaton; delay-bounded schedule exploration incl. a two-connection race",
-   text="Every one of 46 protocol-error kinds alone and after an earlier error with timings {asap, 299 s, 301 s}, all histories up to length 4 (quick) / 5 (thorough) over a reduced alphabet with non-damping events (Cease, FIN, DeletePeer+AddPeer), chains of 5-8 errors (doubling, cap, amnesia), active and passive; the hold-down is measured by the absence/presence of dial attempts and by inbound probes 1 ns after the error, mid-way and 1 ns before release, and compared with the reference automaton. Schedules: single-error histories and a protocol error racing with the other connection becoming Established (finds D15, recorded as known finding). Also every Cease subcode at every state (never damping), NOTIFICATIONs riding behind another message with FIN right behind, protocol errors whose NOTIFICATION cannot be written, a connection arriving at the instant of the error, and a busy-manager scenario (error handled while the manager waits for a slow callback and a third connection knocks).",
+   text="Every one of 46 protocol-error kinds alone and after an earlier error with timings {asap, 299 s, 301 s}, all histories up to length 4 (quick) / 5 (thorough) over a reduced alphabet with non-damping events (Cease, FIN, DeletePeer+AddPeer), chains of 5-8 errors (doubling, cap, amnesia), active and passive; the hold-down is measured by the absence/presence of dial attempts and by inbound probes 1 ns after the error, mid-way and 1 ns before release, and compared with the reference automaton. Schedules: single-error histories and a protocol error racing with the other connection becoming Established (finds D15, recorded as known finding). Also every Cease subcode at every state (never damping), NOTIFICATIONs riding behind another message with FIN right behind, protocol errors whose NOTIFICATION cannot be written, a connection arriving at the instant of the error, and a busy-manager scenario (error handled while the manager waits for a slow callback and a third connection knocks). Received NOTIFICATIONs also carry data octets (a Cease whose data reads like another error, a protocol error whose data reads like a Cease): damping depends on the code only. Every inbound dial of the driver waits for quiescence at its instant.",
    note="trusted: vinstr/vrt virtual clock; refDamp automaton (20 lines)"),
  "C13": dict(level="exploration", design="4/C13",
    technique="exhaustive enumeration of the (peer set, peer state, source, destination) grid on the real server over the virtual network; delay-bounded schedule exploration for the configured source",
-   text="384 cells: 4 peer sets x 10 states of the peer at arrival x 4 sources x 3 destinations (three listeners incl. a wildcard), each judged against the admission predicate of the property: OPEN received iff admissible, otherwise EOF with zero bytes written, no callback for it, and the existing session still delivers a probe UPDATE. Also passive peers with a (specified or unspecified) local address, a wildcard-only listener with an earlier connection, bursts of simultaneous connections, a connection arriving while the peer is being deleted, a hold-down whose NOTIFICATION could not be written; schedules within the bound for the configured source.",
+   text="384 cells: 4 peer sets x 10 states of the peer at arrival x 4 sources x 3 destinations (three listeners incl. a wildcard), each judged against the admission predicate of the property: OPEN received iff admissible, otherwise EOF with zero bytes written, no callback for it, and the existing session still delivers a probe UPDATE. Also passive peers with a (specified or unspecified) local address, a wildcard-only listener with an earlier connection, bursts of simultaneous connections, a connection arriving while the peer is being deleted, a hold-down whose NOTIFICATION could not be written; schedules within the bound for the configured source. Grid dimension remote capabilities: the OPEN with which the peer built the existing connection carried graceful restart (restart bit set) or a set of other capabilities; admission does not depend on them.",
    note="trusted: vinstr/vrt/vnet (real net.TCPAddr endpoints)"),
  "C20": dict(level="model_checking", design="4/C20",
    technique="exhaustive validation grid and operation sequences vs a reference map; stateless model checking of concurrent registry clients with linearizability checking (porcupine) of every explored history",
